@@ -91,8 +91,12 @@ macro_rules! exec_v4 {
         match $op {
             "ONew" => lanes(mk(&a)),
             "ORotr" => {
+                // returns the rotated vector; `self` (taken by &mut) must stay as it was
                 let mut s = mk(&a);
                 let r = s.rotate_right(mk(&b));
+                if lanes(s) != lanes(mk(&a)) {
+                    return vec![]; // (leaves the closure) differs from every model result
+                }
                 lanes(r)
             }
             "OLoad" => lanes($T::from_slice_unaligned(&b)),
@@ -342,7 +346,10 @@ impl Gen {
     fn unary(&mut self, ty: Ty, op: &'static str, n: usize, as_b: bool) {
         let nr = self.nrand();
         let mut vs = basics(ty, n, &mut self.rng, nr);
-        for k in 0..n * ty.width() as usize {
+        // u32x4x4 only forwards to u32x4 (exercised exhaustively): in the quick tier its
+        // walking-one stream uses a stride coprime to 32 (every bit position and every lane still occur)
+        let st1 = if !self.thorough && ty == U32x4x4 { 3 } else { 1 };
+        for k in (0..n * ty.width() as usize).step_by(st1) {
             vs.push(walking(ty, n, k));
         }
         // walking zero (complement) at a stride
@@ -364,7 +371,15 @@ impl Gen {
         let m = ty.mask();
         let bits = n * ty.width() as usize;
         let arith = op == "OAdd" || op == "OAddAssign";
-        let stride = if self.thorough || arith { 1 } else { 3 };
+        let stride = if self.thorough {
+            1
+        } else if ty == U32x4x4 {
+            7 // coprime to 32: all 32 bit positions and all 16 lanes occur
+        } else if arith {
+            1
+        } else {
+            3
+        };
         let ones = vec![m; n];
         let one = vec![1u128; n];
         // carry chains: 0xffffffff + 1 per lane, MAX + MAX, (MAX-1) + 1, high bits
@@ -390,7 +405,9 @@ impl Gen {
             let wk = walking(ty, n, k);
             self.push(ty, op, wk.clone(), ones.clone(), 0);
             self.push(ty, op, wk.clone(), wk.clone(), 0);
-            self.push(ty, op, r1.clone(), wk.clone(), 0);
+            if self.thorough || k % 2 == 0 {
+                self.push(ty, op, r1.clone(), wk.clone(), 0);
+            }
             if self.thorough || k % 4 == 0 {
                 self.push(ty, op, ones.clone(), wk.clone(), 0);
                 self.push(ty, op, wk.clone(), vec![0; n], 0);
@@ -524,7 +541,11 @@ impl Gen {
                     }
                     "OAndNot" | "OAddAssign" | "OXorAssign" | "OAdd" | "OXor" | "OOr" | "OAnd" => self.binary(ty, op),
                     "ORotr" => {
-                        let ps = self.probes(ty, n, if self.thorough { 6 } else { 2 });
+                        let mut ps = self.probes(ty, n, if self.thorough { 6 } else { 1 });
+                        if !self.thorough {
+                            // quick tier: byte-index pattern, top bit, distinct lanes + marker, one random
+                            ps = vec![ps[0].clone(), ps[2].clone(), ps[4].clone(), ps[5].clone()];
+                        }
                         let mut amts: Vec<u128> = (0..=w).collect();
                         amts.extend(self.amounts_big(ty));
                         for a in &ps {
